@@ -42,6 +42,18 @@ GB_CLASSES = ["north_up", "mirror_x", "mirror_y", "mirror_xy", "nonsquare", "rot
               "rot90", "rot270", "rot90_mirror", "fine_rot", "fine_shear"]
 
 
+# projected CRSs whose two axes point the same way (polar stereographic / UPS), northing-easting order, geographic
+# 3-D and compound CRSs: the axis bookkeeping (dimension names, units per axis) must still give two labelled axes
+UNUSUAL_CRS = ["epsg:3031", "epsg:3413", "epsg:5041", "epsg:5042", "epsg:3976", "epsg:2193", "epsg:4979", "EPSG:9518", "EPSG:7415"]
+
+
+def spec_dims(spec):
+    """(ydim, xdim) straight from the CRS table (independent of CRS.dimensions)"""
+    if spec["crs"] is not None and S.CRS_TABLE[spec["crs"]][1]:
+        return ("latitude", "longitude")
+    return ("y", "x")
+
+
 def gen_res(rng):
     m = rng.choice([1, 1, 2, 3, 5, 10, 30])
     j = rng.choice([-4, -3, -2, -1, 0, 0, 1, 2, 3])
@@ -103,7 +115,7 @@ def gen_geobox_spec(rng, cls=None, crs="any", small=False):
         ny = nx = 1
     crs_any = crs == "any"
     if crs_any:
-        crs = rng.choice([None, "epsg:3857", "epsg:4326", "epsg:32633", "epsg:3577", "epsg:4283", "epsg:3857"])
+        crs = rng.choice([None, "epsg:3857", "epsg:4326", "epsg:32633", "epsg:3577", "epsg:4283", "epsg:3857"] + UNUSUAL_CRS)
     spec = {"cls": cls, "shape": [ny, nx], "affine": [fr(rx), fr(b), fr(gen_off(rng)), fr(d), fr(ry), fr(gen_off(rng))],
             "crs": crs}
     if cls in ("fine_rot", "fine_shear"):
@@ -194,7 +206,7 @@ def gen_slice(rng, n):
 
 def gen_history(rng, spec, opts, length=None, keep_nonempty=0.85):
     """Random sequence of operations; sizes are tracked so that most histories keep >= 1 pixel."""
-    ydim, xdim = ("latitude", "longitude") if spec["crs"] in ("epsg:4326", "epsg:4283") else ("y", "x")
+    ydim, xdim = spec_dims(spec)
     sizes = {ydim: spec["shape"][0], xdim: spec["shape"][1]}
     if opts["ntime"]:
         sizes["time"] = opts["ntime"]
@@ -325,9 +337,31 @@ def expected_crs(spec, opts):
     return S.CRS_TABLE[spec["crs"]]
 
 
+def labels_report(spec, xx, iy, ix):
+    """Both spatial coordinates must be written, with labels equal to the pixel centres computed directly from the
+    affine coefficients (axis-aligned) resp. to pixel-space centres i + 1/2 (rotated, GCP).  None when fine."""
+    ydim, xdim = spec_dims(spec)
+    a = [unfr(v) for v in spec["affine"]]
+    st = is_st(spec)
+    for dim, idx, t, r in ((ydim, iy, a[5], a[4]), (xdim, ix, a[2], a[0])):
+        if dim not in xx.dims:
+            return f"dimension {dim!r} missing: dims are {xx.dims}"
+        if dim not in xx.coords:
+            return f"no coordinate labels were written for dimension {dim!r} (coords: {list(xx.coords)})"
+        got = [S.F(v) for v in np.asarray(xx.coords[dim].values, dtype="float64").tolist()]
+        want = [t + r * (i + Fraction(1, 2)) for i in idx] if st else [i + Fraction(1, 2) for i in idx]
+        if got != want:
+            return f"labels of {dim!r} are {[str(v) for v in got[:4]]}.. but the pixel centres are {[str(v) for v in want[:4]]}.."
+    return None
+
+
 def p_roundtrip(spec, opts):
     g, xx = build_wrapped(spec, opts)
     ny, nx = spec["shape"]
+    if labels_exact(spec, xx, None, None, list(range(ny)), list(range(nx))):
+        bad = labels_report(spec, xx, list(range(ny)), list(range(nx)))
+        if bad:
+            return False, bad
     if not needs_geobox(spec, opts, ny, nx):
         return True, "single row/column without CRS coordinate: outside the property's domain"
     r = xx.odc.geobox
@@ -353,11 +387,15 @@ def p_history(spec, opts, h):
     """After the history: shape, CRS, pixel k -> world location of original pixel idx(k),
     agreement with the coordinate labels."""
     g, xx0 = build_wrapped(spec, opts)
-    ydim, xdim = g.dimensions
+    ydim, xdim = spec_dims(spec)
     xx = xx0
     for op in h:
         xx = apply_op(xx, op)
     iy, ix = index_maps(spec, h, ydim, xdim)
+    if iy and ix and labels_exact(spec, xx, ydim, xdim, iy, ix):
+        bad = labels_report(spec, xx, iy, ix)
+        if bad:
+            return False, bad + f"; history {h}"
     if not needs_geobox(spec, opts, len(iy), len(ix)):
         return True, "no pixel left / single row or column without CRS coordinate: outside the domain"
     if not labels_exact(spec, xx, ydim, xdim, iy, ix):
@@ -539,6 +577,44 @@ def p_reproject_opts(rc, gopts):
     return (not bad), ("stale spatial attributes survive: " + ", ".join(bad)) if bad else "ok"
 
 
+def p_reproject_covers(rc, gopts):
+    """how = CRS: judged with pyproj called directly.  The centre of every source pixel, projected by a fresh
+    pyproj Transformer (always_xy), must fall inside the extent of the GeoBox recovered from the output (one output
+    pixel of slack), for the DataArray / every Dataset variable, and the CRS must be the requested one."""
+    import pyproj
+    import xarray as xr
+    src, _ = build_reproject_case(rc)
+    how = rc["dst"]["crs"]
+    kw = dict(gopts)
+    if "shape" in kw:
+        kw["shape"] = tuple(kw["shape"])
+    out = src.odc.reproject(how, **kw)
+    tr = pyproj.Transformer.from_crs(rc["src"]["crs"].upper(), how.upper(), always_xy=True)
+    a = [float(unfr(v)) for v in rc["src"]["affine"]]
+    ny, nx = rc["src"]["shape"]
+    pts = [(a[0] * (i + 0.5) + a[1] * (j + 0.5) + a[2], a[3] * (i + 0.5) + a[4] * (j + 0.5) + a[5]) for j in range(ny) for i in range(nx)]
+    wx, wy = tr.transform([p[0] for p in pts], [p[1] for p in pts])
+    objs = [(n, out[n]) for n in ("a", "b")] + [("Dataset", out)] if isinstance(out, xr.Dataset) else [("DataArray", out)]
+    for n, o in objs:
+        r = o.odc.geobox
+        if r is None:
+            return False, f"{n}: no geobox after reproject({how!r}, **{gopts})"
+        if S.crs_key(r.crs) != S.CRS_TABLE[how]:
+            return False, f"{n}: CRS {S.crs_key(r.crs)} after reproject({how!r})"
+        A = [float(v) for v in tuple(r.affine)[:6]]
+        det = A[0] * A[4] - A[1] * A[3]
+        if det == 0:
+            return False, f"{n}: degenerate output grid {A}"
+        rows, cols = r.shape
+        for (sx, sy), x, y in zip(pts, wx, wy):
+            col = (A[4] * (x - A[2]) - A[1] * (y - A[5])) / det
+            row = (-A[3] * (x - A[2]) + A[0] * (y - A[5])) / det
+            if not (-1 <= col <= cols + 1 and -1 <= row <= rows + 1):
+                return False, (f"{n}: source pixel centre {(sx, sy)} projects (pyproj) to {(x, y)} = output pixel "
+                               f"(col {col:.2f}, row {row:.2f}), outside the {rows}x{cols} output grid {A}")
+    return True, "ok"
+
+
 def p_affine_axis(xs, ys):
     """affine_from_axis on exactly representable regular axes: label[k] = A*(k+1/2)."""
     from odc.geo.math import affine_from_axis
@@ -558,8 +634,91 @@ PREDICATES = {
     "reproject": lambda a: p_reproject(a["rc"]),
     "reproject_crs": lambda a: p_reproject_crs(a["rc"]),
     "reproject_opts": lambda a: p_reproject_opts(a["rc"], a["grid"]),
+    "reproject_covers": lambda a: p_reproject_covers(a["rc"], a["grid"]),
+    "reproject_many_crs": lambda a: p_reproject_many_crs(a["n"], a["rounds"]),
     "affine_axis": lambda a: p_affine_axis([unfr(v) for v in a["xs"]], [unfr(v) for v in a["ys"]]),
 }
+
+
+def p_reproject_many_crs(n, rounds, full_every=25):
+    """A long-running process: one small lon/lat array sent (how = CRS string) into n distinct custom CRSs (a local
+    transverse Mercator per scene), `rounds` times over.  Every destination grid (`.odc.output_geobox(how)`, the
+    CRS-crossing step of xr_reproject) and, every `full_every`-th time, the complete `.odc.reproject(how)` output is
+    judged with pyproj called directly: the projected centres of the source pixels must lie inside the grid (one
+    pixel of slack), and the reprojected array must recover that very grid and the requested CRS."""
+    import pyproj
+    from affine import Affine
+    from odc.geo.geobox import GeoBox
+    from odc.geo.xr import xr_zeros
+    a = (0.125, 0.0, 13.0, 0.0, -0.125, 25.0)
+    pts = [(a[0] * (i + 0.5) + a[2], a[4] * (j + 0.5) + a[5]) for j in range(2) for i in range(3)]
+    xx = xr_zeros(GeoBox((2, 3), Affine(*a), "epsg:4326"), dtype="uint8")
+
+    def outside(g, tr):
+        A = [float(v) for v in tuple(g.affine)[:6]]
+        det = A[0] * A[4] - A[1] * A[3]
+        rows, cols = g.shape
+        for (lon, lat) in pts:
+            x, y = tr.transform(lon, lat)
+            col = (A[4] * (x - A[2]) - A[1] * (y - A[5])) / det if det else float("nan")
+            row = (-A[3] * (x - A[2]) + A[0] * (y - A[5])) / det if det else float("nan")
+            if not (-1 <= col <= cols + 1 and -1 <= row <= rows + 1):
+                return (f"source pixel centre ({lon}, {lat}) projects (pyproj) to ({x:.1f}, {y:.1f}) = pixel (col {col:.1f}, "
+                        f"row {row:.1f}), outside the {rows}x{cols} grid {A}")
+        return None
+
+    for rnd in range(rounds):
+        for k in range(n):
+            txt = (f"+proj=tmerc +lat_0={(k % 40) - 20} +lon_0={13 + (k % 16) / 8 - 1} +k=0.9996 +x_0={500000 + 1000 * k} "
+                   f"+y_0={k % 3} +ellps=GRS80 +units=m +no_defs")
+            tr = pyproj.Transformer.from_crs("EPSG:4326", txt, always_xy=True)
+            g = xx.odc.output_geobox(txt)
+            bad = outside(g, tr)
+            if bad:
+                return False, f"round {rnd}, CRS #{k} {txt!r}: output_geobox: {bad}"
+            if k % full_every == full_every - 1:
+                r = xx.odc.reproject(txt).odc.geobox
+                if r is None or r.crs is None or r.shape != g.shape:
+                    return False, f"round {rnd}, CRS #{k} {txt!r}: reprojected array recovers {r!r}, requested grid {g!r}"
+                if not pyproj.CRS.from_user_input(r.crs.to_wkt()).equals(pyproj.CRS.from_user_input(txt), ignore_axis_order=True):
+                    return False, f"round {rnd}, CRS #{k}: requested {txt!r}, output says {str(r.crs)[:80]!r}"
+                bad = outside(r, tr)
+                if bad:
+                    return False, f"round {rnd}, CRS #{k} {txt!r}: reproject: {bad}"
+    return True, "ok"
+
+
+def many_destinations(n=220):
+    """C09's own process history: a long-running process that has already computed output grids of one lon/lat array
+    in a few hundred different custom CRSs (one local transverse Mercator per scene), dropped them and collected
+    garbage.  The source CRS object (parsed from the array's spatial_ref WKT) stays in use all the time."""
+    import gc
+    from affine import Affine
+    from odc.geo.geobox import GeoBox
+    from odc.geo.xr import xr_zeros
+    xx = xr_zeros(GeoBox((2, 3), Affine(0.125, 0, 13, 0, -0.125, 25), "epsg:4326"), dtype="uint8")
+    for i in range(n):
+        txt = (f"+proj=tmerc +lat_0={(i % 40) - 20} +lon_0={13 + (i % 9) / 8} +k=0.9996 +x_0={500000 + i} +y_0={i % 3} "
+               "+ellps=GRS80 +units=m +no_defs")
+        try:
+            xx.odc.output_geobox(txt)
+        except Exception:  # noqa: BLE001  pylint: disable=broad-except
+            pass
+    gc.collect()
+
+
+def _after_history(a):
+    """perturb the process (crshist's cache histories, or C09's own "c09:many-destinations"), then judge one case"""
+    from vlib import crshist
+    mine = [h for h in a["hist"] if h.startswith("c09:")]
+    theirs = [h for h in a["hist"] if not h.startswith("c09:")]
+    crshist.perturb(tuple(theirs), tuple(a["specs"]))
+    if "c09:many-destinations" in mine:
+        many_destinations()
+    return PREDICATES[a["name"]](*a["args"])
+
+
+PREDICATES["after_history"] = _after_history
 
 
 # ---------------------------------------------------------------- correspondence cases
@@ -676,6 +835,9 @@ def malformed_objects(rng):
     return out
 
 
+CASE_INPUTS: list = []   # (spec, opts, history) of every correspondence history: judged by the predicates too
+
+
 def gen_cases(out, tier):
     from odc.geo.math import affine_from_axis, data_resolution_and_offset, maybe_int, resolution_from_affine
     from odc.geo.xr import xr_coords
@@ -760,7 +922,7 @@ def gen_cases(out, tier):
             opts["name"] = "spatial_ref"
         g, xx = build_wrapped(spec, opts)
         box = spec_box(spec)
-        ydim, xdim = g.dimensions
+        ydim, xdim = spec_dims(spec)
         if not labels_exact(spec, xx, ydim, xdim, list(range(spec["shape"][0])), list(range(spec["shape"][1]))):
             out.count("discarded:inexact_labels")
             continue
@@ -779,6 +941,7 @@ def gen_cases(out, tier):
         h = gen_history(rng, spec, opts)
         if rng.random() < 0.25:
             h = [{"op": "transpose"}] + h
+        CASE_INPUTS.append((spec, opts, h))
         iy, ix = index_maps(spec, h, ydim, xdim)
         final = xx
         inexact = False
@@ -856,6 +1019,68 @@ def gen_cases(out, tier):
         ctor = "CReprojDs" if kind == "ds" else "CReprojDa"
         add("reproject:error:" + e[0], f"{ctor} {cq(TOL)} {cq(ITOL)} {S.cxobj(S.snapshot(x))} {S.cgbox(spec_box(gdst))} None {S.cres(e, S.cxobj)}", tag)
     return cases
+
+
+# ---------------------------------------------------------------- process histories (fresh interpreter per case)
+def child(path):
+    """entry point of a fresh interpreter: perturb the CRS caches first, then judge one case; prints one JSON line"""
+    import json
+    job = json.load(open(path))
+    try:
+        ok, detail = PREDICATES["after_history"](job)
+    except Exception as e:  # pylint: disable=broad-except
+        ok, detail = False, f"raised {type(e).__name__}: {e}"
+    print("C09CHILD " + json.dumps([bool(ok), str(detail)[:1500]]))
+
+
+def run_in_fresh_processes(jobs, parallel=8, timeout=300):
+    """The caches of odc.geo.crs are per process and this process has long warmed them: a history that must come
+    FIRST (authority-order transformer requested before the x,y one, eviction before first use) only shows in a fresh
+    interpreter -- exactly what a replay is."""
+    import json
+    import os
+    import shutil
+    import subprocess
+    import sys
+    import tempfile
+    tmp = tempfile.mkdtemp(prefix="verif-c09-")
+    results = [(True, "not run")] * len(jobs)
+    try:
+        procs = []
+        for i, job in enumerate(jobs):
+            f = os.path.join(tmp, f"job{i}.json")
+            with open(f, "w") as fh:
+                json.dump(job, fh)
+            procs.append((i, f))
+        running = []
+
+        def reap(entry):
+            i, pr = entry
+            try:
+                o, _ = pr.communicate(timeout=timeout)
+            except subprocess.TimeoutExpired:
+                pr.kill()
+                results[i] = (True, "timeout (not judged)")
+                return
+            line = [l for l in o.splitlines() if l.startswith("C09CHILD ")]
+            if line:
+                ok, detail = json.loads(line[-1][len("C09CHILD "):])
+                results[i] = (ok, detail)
+            else:
+                results[i] = (False, "child interpreter died: " + o[-600:])
+
+        for i, f in procs:
+            while len(running) >= parallel:
+                reap(running.pop(0))
+            pr = subprocess.Popen([sys.executable, "-W", "ignore", "-c",
+                                   "import sys; from props import c09; c09.child(sys.argv[1])", f],
+                                  stdout=subprocess.PIPE, stderr=subprocess.STDOUT, text=True, env=dict(os.environ))
+            running.append((i, pr))
+        for e in running:
+            reap(e)
+    finally:
+        shutil.rmtree(tmp, ignore_errors=True)
+    return results
 
 
 # ---------------------------------------------------------------- search
@@ -960,6 +1185,7 @@ def search(out, tier):
         run("reproject_crs", {"rc": rc})
     # how = CRS with output-grid options, Dataset and DataArray, numpy and dask
     k = 0
+    cross = []
     for dst_crs, optsets in GRID_OPTS.items():
         for gopts in optsets:
             for container in (("ds", "da") if quick else ("ds", "da", "ds")):
@@ -985,6 +1211,34 @@ def search(out, tier):
                     rc["ds_attrs"] = {}
                 rc["dst"] = dict(rc["dst"], crs=dst_crs)
                 run("reproject_opts", {"rc": rc, "grid": gopts})
+                run("reproject_covers", {"rc": rc, "grid": gopts})
+                cross.append((rc, gopts))
+    # the inputs of the correspondence histories, judged by the property predicates as well: a disagreement between
+    # model and implementation that is a property violation then comes with its concrete replay
+    for spec, opts, h in CASE_INPUTS:
+        run("roundtrip", {"spec": spec, "opts": opts})
+        run("history", {"spec": spec, "opts": opts, "history": h})
+    # cross-CRS reprojections again after process histories that perturb the CRS / transformer caches of odc.geo.crs
+    # (done last: the perturbations stay in this process)
+    specs = ["epsg:4326", "epsg:3857", "epsg:32633"]
+    hists = [["authority-order-first"], ["queries-first"], ["churn"], ["c09:many-destinations"],
+             ["authority-order-first", "queries-first", "churn", "c09:many-destinations"]]
+    jobs = []
+    for hi, hist in enumerate(hists):
+        picks = [cross[(hi * 5 + j * 3) % len(cross)] for j in range(2 if quick else 6)] if cross else []
+        for j, (rc, gopts) in enumerate(picks):
+            name = "reproject_covers" if (hi + j) % 3 else "reproject_opts"
+            jobs.append({"hist": hist, "specs": specs, "name": name, "args": [{"rc": rc, "grid": gopts if j % 2 == 0 else {}}]})
+    # a long-running process reprojecting into many CRSs (bounded caches, recycled object ids): self-contained, judged
+    # with pyproj; in its own interpreter so that it starts from empty caches and runs beside the other children
+    jobs.append({"hist": [], "specs": [], "name": "reproject_many_crs", "args": [{"n": 300 if quick else 400, "rounds": 1 if quick else 2}]})
+    for job, (ok, detail) in zip(jobs, run_in_fresh_processes(jobs)):
+        out.count("predicate:after_history:" + "+".join(job["hist"]))
+        out.case(("pred", "after_history", repr(job)), True)
+        if not ok and "after_history" not in found:
+            found["after_history"] = True
+            out.violation("c09:after_history", f"after_history {job['hist']} -> {job['name']}: {detail}",
+                          {"predicate": "after_history", "args": job, "observed": detail})
 
 
 # ---------------------------------------------------------------- entry points
@@ -1054,7 +1308,9 @@ META = {
              "(counted, documented in docs/notes/C09.md): on dask-backed arrays slices with a negative step and start < -n (dask "
              "2026.8 mis-normalises them, upstream); dask-backed reprojection into a grid with both resolutions negative "
              "(GeoBox.footprint buffer sign, reported for C12/C13); how=CRS destinations have non-dyadic coefficients, only "
-             "shape/CRS/attributes are compared there.  Not proved: pixel values of the reprojection (rasterio/dask oracle), "
+             "shape/CRS/attributes are compared there; cross-CRS cases are re-run after process histories (tools/vlib/crshist.py "
+             "and a 300-CRS run) in fresh interpreters and judged with pyproj called directly (containment with one pixel of "
+             "slack, testing).  Not proved: pixel values of the reprojection (rasterio/dask oracle), "
              "compute_output_geobox (how=CRS; property C11), GCP polynomial fit, binary64 rounding."),
     "technique": "Coq proof over hand-written Gallina model + snapshot correspondence (vm_compute) + exact-Fraction predicates",
     "design_ref": "DESIGN.md section 5, C09; section 6 F9",
